@@ -311,7 +311,7 @@ func init() {
 		Name: "C31/streams",
 		Rule: "1..12 chunks drawn from ESC, CSI/SS3/double-ESC prefixes, mouse and SGR-mouse introducers, bracketed-paste markers, digits (incl. overflowing numbers), separators, terminators, control bytes, complete and truncated UTF-8, invalid leaders/continuations, complete known sequences, 10% arbitrary bytes; timeouts injected at none / 10% / 33% of the timed reads; non-trivial = the stream contains ESC or invalid UTF-8",
 		Gen:  c31GenStream, Check: c31CheckStream, Class: c31ClassStream,
-		Quick: 30000, Thorough: 400000,
+		Quick: 30000, Thorough: 400000, FuzzSecs: 45,
 	})
 	vs.Register(vs.Prop[c31Text]{
 		Name: "C31/text",
